@@ -15,6 +15,15 @@ import random
 
 from .. import common, tlc, tlaval, trace
 
+# Annex D default quantisation matrices (third-party vc2_data_tables, not the tree under test), copied when
+# this module is imported -- before any code under test has run in this process or been forked from it -- so
+# that code which writes into the shared live table cannot change what the harness and the generated TLA+
+# table module take to be the standard's values.
+import copy as _copy
+from vc2_data_tables import QUANTISATION_MATRICES as _LIVE_QM
+
+QUANTISATION_MATRICES = dict((k, _copy.deepcopy(dict(v))) for k, v in _LIVE_QM.items())
+
 ORIENTS = {"LL": 0, "L": 0, "H": 1, "HL": 1, "LH": 2, "HH": 3}
 STATE_KEYS = [
     "major_version", "minor_version", "profile", "level", "picture_coding_mode", "picture_number",
@@ -68,7 +77,6 @@ def make_features(rnd, base=None, archetype=None):
     for which Annex D has default matrices (haar_no_shift x le_gall_5_3) with the default matrix."""
     from vc2_conformance.codec_features import CodecFeatures
     from vc2_conformance.pseudocode.video_parameters import VideoParameters
-    from vc2_data_tables import QUANTISATION_MATRICES
 
     if base is None:
         hq = rnd.random() < 0.55
@@ -484,7 +492,6 @@ class Reconstruction(Exception):
 def reconstruct(context):
     from vc2_conformance.decoder.transform_data_syntax import initialize_wavelet_data, dc_prediction
     from vc2_conformance.pseudocode.parse_code_functions import using_dc_prediction
-    from vc2_data_tables import QUANTISATION_MATRICES  # third party (Annex D), not the tree under test
 
     units, pics = [], []
     for seq in context["sequences"]:
@@ -551,7 +558,6 @@ def gen_tables():
     """DeserValidatorTables.tla generated from vc2_data_tables.QUANTISATION_MATRICES (scratch dir; per process)"""
     global _TABLES
     import os
-    from vc2_data_tables import QUANTISATION_MATRICES
 
     if _TABLES is None or not os.path.exists(_TABLES):
         rows = []
